@@ -127,7 +127,11 @@ std::string random_go(const Board& b, int& depth_limit, std::vector<orc::Move>& 
     switch (RNG->below(10))
     {
     case 0:
-    case 1: depth_limit = 1 + RNG->below(maxdepth); return "go depth " + std::to_string(depth_limit);
+    case 1:
+        depth_limit = 1 + RNG->below(maxdepth);
+        // plain depth limits stay shallow; deeper ones carry a node budget so that a session on a wild position
+        // (ten queens a side) cannot outlast the driver's patience under a sanitizer
+        return "go depth " + std::to_string(depth_limit) + (depth_limit > 2 ? " nodes 300000" : "");
     case 2:
     {
         static const int NN[] = {1, 10, 500, 5000, 30000};
@@ -156,7 +160,7 @@ std::string random_go(const Board& b, int& depth_limit, std::vector<orc::Move>& 
         for (size_t i = legal.size(); i > 1; --i) std::swap(legal[i - 1], legal[RNG->below(uint32_t(i))]);
         if (legal.size() > n) legal.resize(n);
         sm = legal;
-        std::string s = "go depth " + std::to_string(depth_limit) + " searchmoves";
+        std::string s = "go depth " + std::to_string(depth_limit) + (depth_limit > 2 ? " nodes 300000" : "") + " searchmoves";
         for (const orc::Move& m : sm) s += " " + m.uci();
         return s;
     }
@@ -171,7 +175,7 @@ std::string random_go(const Board& b, int& depth_limit, std::vector<orc::Move>& 
     {
         // a depth limit together with a clock or movetime (all limits must hold together)
         depth_limit = 1 + RNG->below(maxdepth);
-        std::string s = "go depth " + std::to_string(depth_limit);
+        std::string s = "go depth " + std::to_string(depth_limit) + (depth_limit > 2 ? " nodes 300000" : "");
         if (RNG->below(2))
             s += " wtime " + std::to_string(RNG->below(2) ? 30000 : 600) + " btime " + std::to_string(RNG->below(2) ? 30000 : 600) + (RNG->below(2) ? " winc 1000 binc 1000" : "");
         else
